@@ -18,11 +18,15 @@ def where_of(S):
     return '%s:%d' % best if best else None
 
 def fn_where(fn):
+    """file:line of the function(s) of /repo that the wrapper calls directly"""
+    ds = [d for d in fn.get('direct', []) if d['file'].startswith(build.REPO) and d['line']]
+    if ds:
+        return ', '.join('%s:%d (%s)' % (build.repo_rel(d['file']), d['line'], d['name']) for d in ds[:3])
     best = None
     for b in fn['blocks']:
         for i in b['insts']:
             f = i.get('file')
-            if f and 'line' in i and f.startswith(build.REPO):
+            if f and i.get('line') and f.startswith(build.REPO):
                 key = (build.repo_rel(f), i['line'])
                 if best is None or key < best:
                     best = key
@@ -70,3 +74,92 @@ def written_exact(S, base, n, t):
     _, sz, lt = agg.ELEM[t]
     w = S.written(base)
     return set(w.keys()) <= set(i * sz for i in range(n)) and all(w[k] == sz for k in w)
+
+# ---------------------------------------------------------------- joint results / twins
+
+def joint(S, outs, with_ret=None):
+    """one decision DAG over all exits whose leaves are tuples of the listed outputs
+    outs: list of (base, off, size, llvm type); with_ret: llvm type of the return value or None"""
+    items = []
+    for e in S.exits:
+        if e.kind == 'ret':
+            vals = [S.interp.load_from(e.mem, b, off, sz, ty) for (b, off, sz, ty) in outs]
+            if with_ret:
+                vals.append(e.ret)
+            v = T.mk('tuple', None, tuple(vals), None)
+        elif e.kind == 'throw':
+            v = T.mk('throw', e.exc, (), None)
+        elif e.kind == 'unwind':
+            continue
+        else:
+            v = T.mk('abort', e.kind, (), None)
+        for p in e.paths:
+            items.append((p, v))
+    return hoist(vg.build_tree(items))
+
+_hoist_memo = {}
+def hoist(n):
+    """lift value-level ites that sit directly in tuple components to the top, so that leaves
+    of the resulting decision DAG are tuples of ite-free-at-top values"""
+    r = _hoist_memo.get(n.id)
+    if r is not None:
+        return r
+    if n.op == 'ite':
+        r = T.ite(n.args[0], hoist(n.args[1]), hoist(n.args[2]))
+    elif n.op == 'tuple':
+        v = min([T._top(a) for a in n.args if a.op == 'ite'] or [None], key=lambda x: (x is None, x))
+        if v is None:
+            r = n
+        else:
+            hi = T.mk('tuple', None, tuple(T._cof(a, v, True) for a in n.args), None)
+            lo = T.mk('tuple', None, tuple(T._cof(a, v, False) for a in n.args), None)
+            r = T.ite(T._nodes[v], hoist(hi), hoist(lo))
+    else:
+        r = n
+    _hoist_memo[n.id] = r
+    return r
+
+def twin_same(JC, JU):
+    """R07.same: on every non-throwing leaf of the checked form the unchecked form has the
+    identical leaf.  Returns (ok, detail, n_leaves)"""
+    lv = T.leaves(JC, 20000)
+    n = 0
+    for lits, leaf in lv:
+        if leaf.op == 'throw':
+            continue
+        n += 1
+        u = T.resolve(JU, dict(lits))
+        leaf = T.resolve(leaf, dict(lits))
+        if u is not leaf:
+            try:
+                if T.equiv(u, leaf):
+                    continue
+            except OverflowError:
+                pass
+            # locate first differing component
+            det = 'results differ'
+            if u.op == 'tuple' and leaf.op == 'tuple':
+                for i, (x, y) in enumerate(zip(leaf.args, u.args)):
+                    if x is not y:
+                        det = 'output %d: checked form gives %s, unchecked form gives %s' % (i, T.show(x, 4)[:300], T.show(y, 4)[:300])
+                        break
+            elif u.op == 'ite':
+                det = 'the unchecked form additionally depends on %s' % T.show(u.args[0], 3)
+            else:
+                det = 'checked form returns %s where unchecked form gives %s' % (T.show(leaf, 3)[:200], T.show(u, 3)[:200])
+            return False, det + ' (on the path %s)' % ', '.join('%s=%s' % (T.show(c, 2)[:80], v) for c, v in lits[:6]), n
+    return True, '', n
+
+def region(J, pred):
+    """boolean DAG of the region where leaf predicate holds"""
+    memo = {}
+    def rec(x):
+        r = memo.get(x.id)
+        if r is None:
+            if x.op == 'ite':
+                r = T.ite(x.args[0], rec(x.args[1]), rec(x.args[2]))
+            else:
+                r = T.TRUE if pred(x) else T.FALSE
+            memo[x.id] = r
+        return r
+    return rec(J)
